@@ -18,6 +18,7 @@ import (
 	"fmt"
 	"os"
 	"sort"
+	"strings"
 	"sync"
 	"testing"
 
@@ -46,6 +47,7 @@ type c15Op struct {
 	Since  int        `json:"since,omitempty"`
 	Page   int64      `json:"page,omitempty"`
 	Dt     int64      `json:"dt,omitempty"`
+	Big    int        `json:"big,omitempty"`    // create/edit: payload size class (0 small, else c15BigSizes[Big-1] bytes)
 	Trip   int        `json:"trip,omitempty"`   // cancel: the request context is cancelled at its Trip-th poll
 	Create bool       `json:"create,omitempty"` // cancel: the cancelled request is a create
 }
@@ -69,6 +71,37 @@ var (
 		name string
 	}{{-1, format.NamespaceEvent, "__default"}, {-2, format.MetricsGroupEvent, "__builtin_group"}, {-3, format.PromConfigEvent, "prom-config"}, {-4, format.NamespaceEvent, "__other"}}
 )
+
+// payload sizes around the journal's per-page byte budget (about 1 MiB; a request may carry up to 1 MiB):
+// a quarter, a third, a half, two thirds, just below the budget
+var c15BigSizes = []int{262_000, 349_000, 524_000, 700_000, 1_040_000}
+
+var c15BigCache = map[int]string{}
+
+func c15DataOf(op c15Op) string {
+	if op.Big <= 0 {
+		return c15Datas[op.Data%len(c15Datas)]
+	}
+	n := c15BigSizes[(op.Big-1)%len(c15BigSizes)] + op.Data // Data varies the size a little
+	if s, ok := c15BigCache[n]; ok {
+		return s
+	}
+	s := `{"pad":"` + strings.Repeat("x", n-10) + `"}`
+	c15BigCache[n] = s
+	return s
+}
+
+// c15Short keeps megabyte payloads out of messages.
+func c15Short(evs ...vpmetaEvent) string {
+	out := make([]vpmetaEvent, len(evs))
+	for i, e := range evs {
+		if len(e.Data) > 80 {
+			e.Data = fmt.Sprintf("<%d bytes>", len(e.Data))
+		}
+		out[i] = e
+	}
+	return fmt.Sprintf("%+v", out)
+}
 
 func c15Name(nameIdx, ns int, typ int32) string {
 	if typ == format.NamespaceEvent {
@@ -365,7 +398,7 @@ func (r *c15Run) apply(op c15Op) {
 	switch op.K {
 	case "create":
 		typ := c15Types[op.Typ%len(c15Types)]
-		req := c15Req{name: c15Name(op.Name, op.NS, typ), create: true, data: c15Datas[op.Data%len(c15Datas)], del: op.Del, typ: typ, metadata: c15Metas[op.Meta%len(c15Metas)]}
+		req := c15Req{name: c15Name(op.Name, op.NS, typ), create: true, data: c15DataOf(op), del: op.Del, typ: typ, metadata: c15Metas[op.Meta%len(c15Metas)]}
 		v := r.m.judge(req)
 		ev, err := r.save(req)
 		r.settle(req, v, ev, err, "create")
@@ -382,7 +415,7 @@ func (r *c15Run) apply(op c15Op) {
 		if op.Name > 0 {
 			name = c15Name(op.Name-1, op.NS, e.cur.Type)
 		}
-		req := c15Req{name: name, id: e.cur.ID, version: r.pickVersion(e, op.Ver), data: c15Datas[op.Data%len(c15Datas)], del: op.Del, typ: e.cur.Type, metadata: c15Metas[op.Meta%len(c15Metas)]}
+		req := c15Req{name: name, id: e.cur.ID, version: r.pickVersion(e, op.Ver), data: c15DataOf(op), del: op.Del, typ: e.cur.Type, metadata: c15Metas[op.Meta%len(c15Metas)]}
 		v := r.m.judge(req)
 		before := e.cur
 		ev, err := r.save(req)
@@ -532,6 +565,10 @@ func (r *c15Run) apply(op c15Op) {
 		for _, ev := range evs {
 			got = append(got, vpmetaFromTL(ev))
 		}
+		if len(got) > 0 && len(got) < len(want) && c15BudgetExplains(want, len(got)) {
+			want = want[:len(got)] // the page was cut by the byte budget, not by the count
+			r.stats["single-call-cut-by-byte-budget"]++
+		}
 		if d := c15DiffEvents(want, got); d != "" {
 			t.Fatalf("JournalEvents(since %d, page %d): %s", since, page, d)
 		}
@@ -608,13 +645,74 @@ func (r *c15Run) race(reqs []c15Req, verdicts []c15Verdict, valid int, what stri
 	}
 }
 
+// c15BudgetExplains says whether a page that stops after n of the expected events can be blamed on the
+// per-page byte budget: what it carries plus the next event reaches the budget.
+func c15BudgetExplains(want []vpmetaEvent, n int) bool {
+	var sum int64
+	for _, e := range want[:n+1] {
+		sum += int64(len(e.Data)) + int64(len(e.Name)) + 40
+	}
+	return sum >= metricBytesReadLimit
+}
+
+// c15ClientRead reads the journal the way a client does: from 0, cursor = last version of the page,
+// until a page is empty. Pages must be strictly increasing and continue each other; a page shorter
+// than the count limit with more behind it must be explained by the byte budget. The concatenation
+// is returned for the comparison with the model (every entity's latest version once, nothing else).
+func (r *c15Run) c15ClientRead(when string, page int64) []vpmetaEvent {
+	t := r.t
+	want := r.m.journal(0)
+	var out []vpmetaEvent
+	since := int64(0)
+	for i := 0; ; i++ {
+		evs, err := r.env.db.JournalEvents(vpmetaCtx, since, page)
+		if err != nil {
+			vpmetaFail(t, "%s: JournalEvents(%d,%d): %v", when, since, page, err)
+		}
+		if len(evs) == 0 {
+			if len(out) < len(want) {
+				t.Fatalf("%s: client paging (page %d) got an empty page at cursor %d while newer versions exist: delivered %s, the journal is %s", when, page, since, c15Short(out...), c15Short(want...))
+			}
+			return out
+		}
+		for _, ev := range evs {
+			e := vpmetaFromTL(ev)
+			if e.Version <= since {
+				t.Fatalf("%s: client paging (page %d): version %d delivered at cursor %d", when, page, e.Version, since)
+			}
+			since = e.Version
+			out = append(out, e)
+		}
+		if int64(len(evs)) > page {
+			t.Fatalf("%s: page of %d events, limit %d", when, len(evs), page)
+		}
+		if int64(len(evs)) < page && len(out) < len(want) {
+			// more behind a short page: only the byte budget may cut a page
+			r.stats["page-cut-by-byte-budget"]++
+			if len(out) <= len(want) && !c15BudgetExplains(want[len(out)-len(evs):], len(evs)) {
+				t.Fatalf("%s: client paging: page at cursor %d has %d events (limit %d) although more follow and the byte budget is not reached", when, since, len(evs), page)
+			}
+			rest := want[len(out):]
+			for _, e := range rest[1:] {
+				if len(e.Data) < len(rest[0].Data) {
+					r.stats["page-cut-with-smaller-event-behind"]++
+					break
+				}
+			}
+		}
+		if i > 10000 {
+			t.Fatalf("%s: client paging does not terminate", when)
+		}
+	}
+}
+
 func c15DiffEvents(want, got []vpmetaEvent) string {
 	if len(want) != len(got) {
-		return fmt.Sprintf("got %d events %+v, expected %d %+v", len(got), got, len(want), want)
+		return fmt.Sprintf("got %d events %s, expected %d %s", len(got), c15Short(got...), len(want), c15Short(want...))
 	}
 	for i := range want {
 		if want[i] != got[i] {
-			return fmt.Sprintf("event %d is %+v, expected %+v", i, got[i], want[i])
+			return fmt.Sprintf("event %d is %s, expected %s", i, c15Short(got[i]), c15Short(want[i]))
 		}
 	}
 	return ""
@@ -623,7 +721,7 @@ func c15DiffEvents(want, got []vpmetaEvent) string {
 // invariantEntity: the journal and the history of one entity equal the model (cheap form used inside sweeps)
 func (r *c15Run) invariantEntity(when string, id int64) {
 	t := r.t
-	if d := c15DiffEvents(r.m.journal(0), vpmetaJournalPaged(t, r.env.db, 0, 1000)); d != "" {
+	if d := c15DiffEvents(r.m.journal(0), r.c15ClientRead(when, 1000)); d != "" {
 		t.Fatalf("%s: journal: %s", when, d)
 	}
 	e := r.m.ents[id]
@@ -643,7 +741,7 @@ func (r *c15Run) invariant(step int) {
 	t := r.t
 	db := r.env.db
 	for _, page := range []int64{2, 1000} {
-		got := vpmetaJournalPaged(t, db, 0, page)
+		got := r.c15ClientRead(fmt.Sprintf("after op %d", step), page)
 		if d := c15DiffEvents(r.m.journal(0), got); d != "" {
 			t.Fatalf("after op %d: journal read with pages of %d: %s", step, page, d)
 		}
@@ -753,9 +851,22 @@ func c15GenOp(t *rapid.T) c15Op {
 func c15Gen() *rapid.Generator[c15Case] {
 	return rapid.Custom(func(t *rapid.T) c15Case {
 		c := c15Case{T0: rapid.Int64Range(1_700_000_000, 1_700_000_100).Draw(t, "t0")}
+		big := rapid.IntRange(0, 5).Draw(t, "big_mode") == 0 // a share of histories carries payloads around the page byte budget
 		n := rapid.IntRange(2, 30).Draw(t, "n")
+		if big {
+			n = rapid.IntRange(4, 12).Draw(t, "n_big")
+		}
 		for i := 0; i < n; i++ {
-			c.Ops = append(c.Ops, c15GenOp(t))
+			op := c15GenOp(t)
+			if big {
+				if i < 5 && rapid.IntRange(0, 2).Draw(t, "force_create") > 0 {
+					op = c15Op{K: "create", Typ: rapid.SampledFrom([]int{0, 1, 3}).Draw(t, "typ"), Name: i, Data: rapid.IntRange(0, 5).Draw(t, "data")}
+				}
+				if (op.K == "create" || op.K == "edit") && rapid.IntRange(0, 3).Draw(t, "is_big") > 0 {
+					op.Big = rapid.IntRange(1, len(c15BigSizes)).Draw(t, "size")
+				}
+			}
+			c.Ops = append(c.Ops, op)
 		}
 		return c
 	})
